@@ -73,3 +73,32 @@ def bounded(seed: int = 0, max_tokens: int = 4, widths: Optional[List[int]] = No
                                      "history": "calls with widths " + ", ".join(map(str, order))})
     return {"cases": cases, "distinct": len(seen), "failures": failures, "exhaustive": True,
             "samples": [{"text": "the cat sat on a looooooooong mat", "line_width": 7}]}
+
+
+def replay(obligation: str = "", model: Optional[Dict[str, str]] = None, **_: Any) -> Dict[str, Any]:
+    """Replay a counter-model of the proof unit on the running function: the model's text and width if it has them,
+    then the small texts of the bounded unit (the verifier's model of a loop cut is an arbitrary iteration, not
+    always a run from the start)."""
+    candidates: List[Any] = []
+    m = model or {}
+    text = m.get("text")
+    if isinstance(text, str) and text.startswith("seq:"):
+        try:
+            text = "".join(chr(int(x)) for x in text[4:].split(",") if x != "")
+        except ValueError:
+            text = None
+    try:
+        width = int(str(m.get("line_width", "60")))
+    except ValueError:
+        width = 60
+    if isinstance(text, str):
+        candidates.append((text, width))
+    for n in range(0, 5):
+        for combo in itertools.product(WORDS, repeat=n):
+            for w in (60, 12, 7, 4, 1, 0):
+                candidates.append((" ".join(combo), w))
+    for text, width in candidates:
+        why = check(text, width)
+        if why is not None:
+            return {"confirmed": True, "input": {"text": text, "line_width": width}, "observed": why}
+    return {"confirmed": False}
